@@ -42,44 +42,19 @@ ATTACH = {
 }
 
 
-ARCSWAP_OLD = '''    #[cfg(not(feature = "experimental-thread-local"))]
-    pub(crate) fn with<R, F: FnOnce(&LocalNode) -> R>(f: F) -> R {
-        let f = Cell::new(Some(f));'''
-ARCSWAP_NEW = '''    // VERIF OVERLAY: under Kani the thread-local fast path is replaced by arc-swap's own
-    // fallback for threads whose TLS is gone (the tmp-node branch below, verbatim): registering a
-    // TLS destructor needs pthread_key_create/__cxa_thread_atexit_impl, which Kani cannot model.
-    #[cfg(kani)]
-    pub(crate) fn with<R, F: FnOnce(&LocalNode) -> R>(f: F) -> R {
-        let tmp_node = LocalNode {
-            node: Cell::new(Some(Node::get())),
-            fast: FastLocal::default(),
-            helping: HelpingLocal::default(),
-        };
-        f(&tmp_node)
-    }
-
-    #[cfg(all(not(feature = "experimental-thread-local"), not(kani)))]
-    pub(crate) fn with<R, F: FnOnce(&LocalNode) -> R>(f: F) -> R {
-        let f = Cell::new(Some(f));'''
-
-
 def vendor_arcswap(dest):
-    """copy arc-swap (the version locked in /repo/Cargo.lock) into the overlay and route its
-    thread-local access through its own no-TLS fallback under cfg(kani)"""
-    import glob
+    """replace the arc-swap dependency by its sequential specification (models/arc-swap-seq):
+    Kani is single-threaded, and the real crate's thread-local debt lists need pthread_key_create
+    and cost CBMC minutes per load()"""
     lock = open(os.path.join(REPO, "Cargo.lock")).read()
     m = re.search(r'name = "arc-swap"\nversion = "([^"]+)"', lock)
     ver = m.group(1)
-    cands = glob.glob(os.path.expanduser("~/.cargo/registry/src/*/arc-swap-%s" % ver))
-    if not cands:
-        raise SystemExit("overlay: arc-swap %s not in the cargo registry cache" % ver)
     vd = os.path.join(dest, "vendor", "arc-swap")
-    shutil.copytree(cands[0], vd)
-    lp = os.path.join(vd, "src", "debt", "list.rs")
-    src = open(lp).read()
-    if ARCSWAP_OLD not in src:
-        raise SystemExit("overlay: arc-swap %s LocalNode::with has an unexpected shape" % ver)
-    open(lp, "w").write(src.replace(ARCSWAP_OLD, ARCSWAP_NEW, 1))
+    shutil.copytree(os.path.join(VERIF, "models", "arc-swap-seq"), vd)
+    ct = os.path.join(vd, "Cargo.toml")
+    t = open(ct).read()
+    t = re.sub(r'version = "[^"]+"', 'version = "%s"' % ver, t, count=1)
+    open(ct, "w").write(t)
     with open(os.path.join(dest, "Cargo.toml"), "a") as fh:
         fh.write('\n[patch.crates-io]\narc-swap = { path = "vendor/arc-swap" }\n')
 
@@ -129,7 +104,7 @@ def build(dest, flavour, harness_files, extra_files=None):
         with open(target_mod, "a") as fh:
             fh.write("\n")
             for m, hpath in mods:
-                fh.write("#[cfg(kani)]\n#[path = \"%s\"]\nmod %s;\n" % (hpath, m))
+                fh.write("#[cfg(kani)]\n#[path = \"%s\"]\npub(crate) mod %s;\n" % (hpath, m))
     for rel, content in (extra_files or {}).items():
         p = os.path.join(dest, rel)
         os.makedirs(os.path.dirname(p), exist_ok=True)
